@@ -4,6 +4,12 @@ import ast
 import z3
 from .values import *
 from .core import *
+from . import listsets
+
+
+def wf(v):
+    from .engine import wf as _wf
+    return _wf(v)
 
 MUTATORS = ('append', 'extend', 'update')
 
@@ -82,22 +88,28 @@ class StmtMixin:
         if isinstance(kind, str) and kind in self.shapes: return self.shapes[kind].decode(self, t)
         return wrap(kind, t)
 
-    def typed_empty(self, v, kind):
+    def typed_empty(self, v, kind, p=None):
         """Give `[]` / [[] for ..] the element kind declared in the contract."""
         if isinstance(v, VCList) and not v.items and kind is not None:
             if not (isinstance(kind, tuple) and kind[0] == 'list'): raise StaleContract('declared kind %r is not a list' % (kind,))
-            return empty_list(kind[1])
+            e = empty_list(kind[1])
+            if kind[1] == 'int' and self.listsets and p is not None:
+                for f in listsets.on_empty(e.term()): p.assume(f)
+            return e
         if isinstance(v, tuple) and v[0] == 'emptylists':
             if kind is None: raise StaleContract('list of lists needs a declared kind')
             inner = kind[1]
             if not (isinstance(inner, tuple) and inner[0] == 'list'): raise StaleContract('declared kind %r is not a list of lists' % (kind,))
-            return VList(v[1], z3.K(I, empty_list(inner[1]).term()), inner)
+            e = empty_list(inner[1])
+            if inner[1] == 'int' and self.listsets and p is not None:
+                for f in listsets.on_empty(e.term()): p.assume(f)
+            return VList(v[1], z3.K(I, e.term()), inner)
         return v
 
     # ---------------------------------------------------------------- lvalues
     def lv_set(self, tgt, v, p, line=0):
         if isinstance(tgt, ast.Name):
-            v = self.typed_empty(v, self.contract.get('locals', {}).get(tgt.id))
+            v = self.typed_empty(v, self.contract.get('locals', {}).get(tgt.id), p)
             if isinstance(v, tuple): raise Undecided('untyped list of lists')
             p.env[tgt.id] = v
             if tgt.id in p.alias:
@@ -107,7 +119,7 @@ class StmtMixin:
         if isinstance(tgt, ast.Attribute):
             o = self.ev(tgt.value, p)
             if isinstance(o, VObj):
-                v = self.typed_empty(v, self.field_kind(o.cls, tgt.attr))
+                v = self.typed_empty(v, self.field_kind(o.cls, tgt.attr), p)
                 if isinstance(v, tuple): raise Undecided('untyped list of lists')
                 p.objs[o.oid][tgt.attr] = v; return
             if isinstance(o, VRef):
@@ -160,7 +172,11 @@ class StmtMixin:
 
     def list_append(self, c, v, p, line):
         if isinstance(c, VList):
-            return VList(c.len + 1, z3.Store(c.arr, c.len, self.to_elem(c.kind, v, p, line)), c.kind)
+            e = self.to_elem(c.kind, v, p, line)
+            new = VList(c.len + 1, z3.Store(c.arr, c.len, e), c.kind)
+            if c.kind == 'int' and self.listsets:
+                for f in listsets.on_append(c.term(), new.term(), e): p.assume(f)
+            return new
         if isinstance(c, VCList): return VCList(c.items + [v])
         if isinstance(c, VNone):
             self.vc('no-raise/attribute-of-None@%d' % line, p, z3.BoolVal(False), line=line)
@@ -214,6 +230,7 @@ class StmtMixin:
         return out
 
     def st_Return(self, s, p):
+        self.apply_lemmas('return', p)
         if s.value is not None and isinstance(s.value, ast.Call):
             res = []
             for st, q, pay in self.call_stmt(s.value, p, '__ret__'):
@@ -254,6 +271,7 @@ class StmtMixin:
         if isinstance(v, VList):
             al = it if isinstance(it, (ast.Name, ast.Attribute, ast.Subscript)) else None
             n = z3.simplify(v.len)
+            self.iter_list = v if (v.kind == 'int' and self.listsets) else None
             return v.len, (lambda k: self.wrapk(v.kind, z3.Select(v.arr, k))), al, (n.as_long() if z3.is_int_value(n) else None)
         if isinstance(v, (VCList, VTuple)):
             items = v.items
@@ -282,6 +300,7 @@ class StmtMixin:
         if s.orelse: raise Undecided('for-else')
         ordinal = self.fn.loops[id(s)]
         lc = self.contract.get('loops', {}).get(ordinal)
+        self.iter_list = None
         n, at, alias, conc = self.iter_desc(s.iter, p, s.lineno)
         if lc is None:
             if conc is None: raise StaleContract('loop %d (line %d) has no invariant and no concrete bound' % (ordinal, s.lineno))
@@ -335,6 +354,7 @@ class StmtMixin:
                 if m[1] in p.env:
                     try: p.env[m[1]] = fresh_like(m[1] + tag, p.env[m[1]])
                     except TypeError: raise Undecided('cannot havoc local %s' % m[1])
+                    p.assume(wf(p.env[m[1]]))
             elif m[0] == 'heap':
                 p.heap[m[1]] = fresh('H_' + m[1] + tag, z3.ArraySort(I, sort_of(SCHEMA[m[1]])))
                 p.has[m[1]] = fresh('HAS_' + m[1] + tag, z3.ArraySort(I, B))
@@ -343,10 +363,14 @@ class StmtMixin:
                 if f in p.objs[oid]:
                     try: p.objs[oid][f] = fresh_like(f + tag, p.objs[oid][f])
                     except TypeError: raise Undecided('cannot havoc field %s' % f)
+                    p.assume(wf(p.objs[oid][f]))
             elif m[0] == 'ghost':
                 self.havoc_ghost(m[1], p, tag)
 
     def inv_loop(self, s, p, ordinal, lc, n, at, alias, is_while):
+        itl = getattr(self, 'iter_list', None); self.iter_list = None
+        if itl is not None:
+            for f in listsets.on_iter_init(itl.term()): p.assume(f)
         # 1. initiation
         self.inv_eval(lc, ordinal, p, z3.IntVal(0), 'init', assume=False)
         mods = self.mods_of(s.body, p) | ({m for m in self.mods_of_target(s.target)} if not is_while else set())
@@ -363,6 +387,8 @@ class StmtMixin:
         else:
             h.assume(k < n)
             self.bind_target(s.target, at(k), h, s.lineno, alias, k)
+            if itl is not None:
+                for f in listsets.on_iter_step(itl.term(), k, z3.Select(itl.arr, k)): h.assume(f)
         if self.feasible(h):
             if 'variant' in lc and is_while: v0 = self.spec_int(lc['variant'], h)
             for st, r, pay in self.exec_block(s.body, [h]):
@@ -377,9 +403,11 @@ class StmtMixin:
         if not is_while:
             # exit state: invariant at k = n
             a = p.fork(); self.havoc(mods, a, '@X%d' % ordinal)
-            nn = z3.simplify(z3.If(n >= 0, n, 0))
+            nn = n          # a count: non-negative by construction (range) or by well-formedness (list length)
             self.inv_eval(lc, ordinal, a, nn, 'assume', assume=True)
-            if isinstance(s.target, ast.Name) and s.target.id in a.env is False: pass
+            if itl is not None:
+                for f in listsets.on_iter_exit(itl.term(), nn): a.assume(f)
+        self.apply_lemmas('loop%d.exit' % ordinal, a)
         if self.feasible(a): out.append(('normal', a, None))
         return out
 
